@@ -8,7 +8,7 @@ VERIF = os.path.dirname(os.path.dirname(os.path.abspath(__file__)))
 # property -> (technique, level text, level note, design ref)
 T = {
  "C01": ("Coq proof (R instance of the GMM functor: logaddexp/lse = ln sum exp, ll = ln of the weighted product of normalised Gaussians, batch/chunk independence, lse bounds) + float-instance correspondence",
-         "Theorems over R for every number of components/features/samples: the reported value is ln(sum_c w_c prod_d gauss1), per-component values log-sum-exp to it, batches split arbitrarily, the reduction only exponentiates non-positive arguments. The same functor body at binary64 is compared with GMMMachine on every run. Partial: the Gaussian integral itself and binary64 finiteness.",
+         "Theorems over R for every number of components/features/samples: the reported value is ln(sum_c w_c prod_d gauss1), per-component values log-sum-exp to it, batches split arbitrarily, the reduction only exponentiates non-positive arguments. The same functor body at binary64 is compared with GMMMachine on every run. Each one-dimensional factor is proved (Coquelicot, is_RInt_gen over the whole line) to integrate to one for every mean and positive variance, given the standard Gaussian integral as an explicit hypothesis (not an axiom). Partial: the standard Gaussian integral itself (no closed proof in the installed libraries) and binary64 finiteness.",
          "Model hand-written; tie = differential run (tolerance 2^-30 rel). Reals axioms of the standard library.", "DESIGN.md 4/C01"),
  "C02": ("Coq proof (statistics as explicit responsibility-weighted sums; additivity over every split by induction; refusal iff declared shapes differ) + correspondence",
          "Theorems over R: responsibilities are non-negative and sum to one, sum n = T, e_step of any concatenation = fold of stats_add, permutation invariance, add refuses exactly on shape mismatch; correspondence of acc_stats/transform/+/+= incl. every composition of small row sets and Dask chunks.",
@@ -21,7 +21,7 @@ T = {
          "Known finding D2 listed in known_findings.json; means-only penalised-likelihood monotonicity validated numerically (partial).", "DESIGN.md 4/C05"),
  "C06": ("Coq proof (k-means at R: nearest-centroid assignment is the first argmin, the mean minimises squared distance, descent of the distortion by regrouping, centroid = mean of previous members, criterion = distortion of entering centroids, chunk independence) + fit correspondence + step-by-step oracle",
          "Theorems over R for any numbers of clusters/features/samples/chunks; KMeansMachine.fit compared with the float model (centroids, criterion, iteration count; explicit and seeded initialisers read back; NumPy and Dask chunks); the oracle re-runs training one iteration at a time against the independently computed distortion.",
-         "The loop's stopping rule is tied by correspondence and the oracle with placed thresholds (the loop theorem is shared in shape with C03's). Reals axioms.", "DESIGN.md 4/C06"),
+         "Loop theorems for the k-means loop itself (iterations, cap, stop rule, distortion never increases along a whole run); the stopping rule is additionally tied by correspondence and the oracle with placed thresholds. Reals axioms.", "DESIGN.md 4/C06"),
  "C20": ("Coq proof (squared Euclidean distance, shape, first-argmin label, weights = fractions summing to one, variances = biased variances >= 0, every chunking) + correspondence with exact rational reference distances",
          "Theorems over R; distances/labels/variances/weights of the implementation compared with the float model in difference form at offsets up to 1e8 and with exact rational arithmetic; GMM initialised from k-means checked to start from exactly centroids / floored variances / weights.",
          "binary64 cancellation of sum x^2/n - mean^2 at large offsets is outside the R model (tolerance 64 eps max|x|^2).", "DESIGN.md 4/C20"),
@@ -30,7 +30,7 @@ T = {
          "matrix inverse is an oracle (np.linalg.inv) - the float model uses Gauss-Jordan; x is checked against its normal equation on every case.", "DESIGN.md 4/C11"),
  "C04": ("Coq proof (chunk independence of the whole fit loops for GMM and k-means and of the cluster variances/weights; order independence of task DAGs, star-graph result and readers-before-writer; isolated = shared under the copy-back inclusion decided on attribute lists generated from /repo/src) + exploration under a custom Dask scheduler",
          "Theorems: fit on any row chunking = fit on the whole array (model, reported values and iteration count are all in the result); every valid schedule of a task graph yields the denotation; the M-step task starts after all block tasks; copy-back covers the M-step's writes for the lists extracted from the current source. The implementation is run under a scheduler that shuffles the ready set and optionally cloudpickles every task, over row and feature chunkings, against the in-memory fit.",
-         "OS-thread interleavings inside NumPy kernels are not modelled; ISV/JFA fit_using_array and WCCN/whitening are covered by the exploration (their per-class additivity is not yet a theorem).", "DESIGN.md 4/C04"),
+         "OS-thread interleavings inside NumPy kernels are not modelled; the ISV/JFA accumulators are proved additive over sessions/classes (FAAcc); WCCN/whitening are covered by the exploration and the permutation theorems of C14.", "DESIGN.md 4/C04"),
  "C07": ("Coq proof (each block update is the exact argmax of the joint log-posterior; one more iteration never lowers it for ISV and JFA; a joint fixed point is the unique global mode, by an exact second-order expansion) under the contract of np.linalg.inv + enrolment correspondence + independent dense-solve oracle",
          "Theorems over R for any numbers of components, features, ranks and sessions (fractional counts allowed). ISVMachine/JFAMachine.enroll compared with the float model; the oracle evaluates the joint posterior independently after 1..8 iterations with D of order 1e-3..2 and checks approach to the directly solved mode.",
          "inverse = oracle with an operator-form contract (incl. symmetry); convergence of the iterates is validated numerically (partial).", "DESIGN.md 4/C07"),
@@ -39,18 +39,18 @@ T = {
          "Reals axioms (Coquelicot).", "DESIGN.md 4/C08"),
  "C10": ("Coq proof (projection solves the posterior-mean equation, which has a unique solution because the precision is I + PSD; zero statistics give 0; covariance floor; covariances untouched without updating) + project/fit correspondence + independent marginal-likelihood oracle",
          "Theorems over R under the solver contract; IVectorMachine.project/fit compared with the float model (T0 replayed from the seeded global draw); the oracle computes the marginal likelihood with slogdet after every iteration.",
-         "EM monotonicity of the marginal likelihood is validated numerically only (no determinant theory over R installed): partial.", "DESIGN.md 4/C10"),
+         "EM monotonicity of the marginal likelihood is a theorem for a rank-1 subspace with fixed covariances (the code's e_step/m_step is the exact EM step); for rank > 1 or with covariance updating it is validated numerically only (no determinant theory over R installed): partial.", "DESIGN.md 4/C10"),
  "C12": ("Coq proof (pairwise tree reduction = plain sum for every length; accumulators form a commutative monoid; per-partition E-steps add up to the E-step of the whole; one iteration independent of the partitioning; schedule independence; copy-back inclusion on generated lists) + bag exploration under the custom scheduler",
          "Theorems for every number and size of partitions; ISV/JFA/i-vector trained from dask bags with 1..n partitions, shuffled labels, shuffled task orders, shared and isolated, against the in-memory list fit.",
-         "The ISV/JFA regrouping of bag partitions by running index is covered by the exploration, not yet by a theorem.", "DESIGN.md 4/C12"),
+         "The ISV/JFA regrouping of bag partitions by running index is a theorem (Bag.v: regroup of any partitioning = grouping of the flat list); the running of the bag graph itself is covered by the exploration.", "DESIGN.md 4/C12"),
  "C14": ("Coq proof (whitened mean zero; L^T C L = I for M = C^-1 = L L^T with L lower triangular, positive diagonal; whitened covariance and WCCN within-class scatter/K are the identity; the WCCN projection depends only on the partition: class order, sample order and label values) under the contracts of inv and cholesky + correspondence + oracle",
          "Theorems over R for any dimension, class count and sample count; Whitening/WCCN.fit compared with the float model (Gauss-Jordan, Cholesky-Banachiewicz); oracle on negative / non-contiguous / unsorted labels and Dask input.",
          "inv/cholesky are oracles with explicit contracts (checked numerically by the oracle on every case).", "DESIGN.md 4/C14"),
- "C09": ("Coq proof (the D phase of JFA training is exact EM: one E/M iteration never lowers the phase marginal, any sizes; scalar factor-analysis core by the ELBO bound) + ISV/JFA fit correspondence + independent per-phase marginal oracle for V, U, D (slogdet)",
-         "Theorem over R for the diagonal (D) phase in full; the V and U phases (rank > 1) are validated numerically after every iteration of the public e_step_*/m_step_* functions because ln det A <= tr A - n is not available without determinant theory. JFAMachine.fit/ISVMachine.fit compared with the float model (U, V, D).",
+ "C09": ("Coq proof (the D phase of JFA training is exact EM: one E/M iteration never lowers the phase marginal, any sizes; the V and U phases likewise for rank-1 subspaces: the code's iteration is the EM step and never lowers the phase marginal; scalar and rank-1 factor-analysis cores by the ELBO bound) + ISV/JFA fit correspondence + independent per-phase marginal oracle for V, U, D (slogdet)",
+         "Theorems over R for the diagonal (D) phase in full and for the V and U phases at rank 1 (any numbers of components, features, classes, sessions); the V and U phases at rank > 1 are validated numerically after every iteration of the public e_step_*/m_step_* functions because ln det A <= tr A - n is not available without determinant theory. JFAMachine.fit/ISVMachine.fit compared with the float model (U, V, D).",
          "partial: V/U phase monotonicity for rank > 1 is numerical evidence only; shapes/finiteness by the oracle.", "DESIGN.md 4/C09"),
  "C17": ("Coq proof (invariant over ALL histories of public operations: cached log-weights/normalisers are those of the visible parameters, variances are a fixed point of the clamp to the current floors; observations = those of the visible parameters; statistics likewise) + history correspondence (state compared after every operation) + fresh-machine oracle",
-         "Theorems over R by induction over the operation list (setters with scalar/per-feature/matrix floors, EM steps with any switches, deepcopy, pickle, save/load); random histories run against the real object and the float model.",
+         "Theorems over R by induction over the operation list (setters with scalar/per-feature/matrix floors, EM steps with any switches, deepcopy, pickle, save/load); random histories (incl. loading another model into a used machine) run against the real object and the float model; augmented assignment through the properties and load-after-observe histories by the fresh-machine oracle.",
          "the object model is hand-written and tied by the history correspondence.", "DESIGN.md 4/C17"),
  "C18": ("Coq proof (generic round-trip theorem for a key-list driven writer/reader incl. h5py's str->bytes; obligations decided on the reader/writer/constructor key lists GENERATED from gmm.py on every run: every recorded setting bound to its own key, every written key read, trainer decoded, floors before variances, statistics fields) + round-trip oracle",
          "The reader/writer tie is regenerated from source (ast) on every run, so an edit that stops restoring a setting breaks a proof obligation; the oracle performs the round trips (constructor-from-file, open file, load into another shape, re-save, legacy layouts, statistics) and compares bits, equality, scores, settings and a further fit.",
@@ -58,15 +58,15 @@ T = {
  "C19": ("Coq proof (effect language for array aliasing with a verified taint check: a checked program leaves caller memory unchanged and its untainted results are fresh; any sequence of checked calls; obligation decided on the in-place update sites GENERATED from /repo/src: every site targets a provably fresh local, a += left operand, a file handed over for writing, or an individually justified site) + bit-snapshot / shares_memory oracle over every public entry point",
          "check_sound and calls_compose are closed under the global context; the generated-site obligation breaks as soon as a new in-place update on a parameter or unknown target appears anywhere in the package (even one no small input triggers); the oracle calls every public entry point twice with the same input objects (NumPy, Dask arrays, bags), compares input bits, tests memory sharing and overwrites data / initial centroids / prior arrays afterwards.",
          "the provenance analysis in harness/extract_facts.py is conservative and trusted; effect programs model four named mechanisms only.", "DESIGN.md 4/C19"),
- "C13": ("Coq proof (variances at or above floors after any variance-storing M-step; ML weights positive with 1 <= sum <= 1 + C*eps/T; MAP weights sum to one; k-means empty cluster keeps its centroid; i-vector covariance floor) + degenerate-data oracle after every iteration for every trainer",
+ "C13": ("Coq proof (validity - positive weights, right shapes, variances at or above positive floors - is an invariant of every ML and MAP M-step (Reynolds or fixed-ratio, today's variance blend and the repaired one) and of whole training runs with any trainer, any switches, floors binding or not; variances at or above floors after any variance-storing M-step; ML weights positive with 1 <= sum <= 1 + C*eps/T; MAP weights sum to one; k-means empty cluster keeps its centroid; i-vector covariance floor) + degenerate-data oracle after every iteration for every trainer",
          "Theorems over R; the oracle trains k-means (array and seeded initialisers, NumPy/Dask), k-means-initialised GMM, GMM ML/MAP with all switch settings and a starved component, and i-vector on duplicated rows, constant columns, two distinct points, outliers, equal rows and extreme scales.",
          "binary64 overflow/finiteness is exhibited, not proved (partial).", "DESIGN.md 4/C13"),
- "C16": ("Coq proof (explicit threading of the global generator: reseeded initialisation and seeded initialisers ignore the incoming state and any history of fits/draws; statistics, WCCN scatter and grouping invariant under sample, class and label permutations; seeding facts generated from /repo/src) + repeated-fit / permutation oracle",
+ "C16": ("Coq proof (explicit threading of the global generator: reseeded initialisation and seeded initialisers ignore the incoming state and any history of fits/draws; statistics, WCCN scatter and grouping invariant under sample, class and label permutations; whole k-means and GMM training runs invariant under any permutation of the training samples; seeding facts generated from /repo/src) + repeated-fit / permutation oracle",
          "Theorems + generated structural obligation (create_UVD calls np.random.seed(random_state) before drawing; k_init receives random_state; no other use of the global generator in k-means/GMM/WCCN); the oracle refits with perturbed global RNG states and shuffled histories (bit-identical) and with permuted samples / class ids.",
          "D12 (seeded string initialisers depend on row order, inside dask_ml) is a known finding.", "DESIGN.md 4/C16"),
- "C15": ("Coq proof (under x -> a*x+b per feature: per-component and total log-likelihood shift by -sum ln|a|, responsibilities invariant, statistics equivariant, one ML EM step equivariant, linear scores invariant with offsets scaled; k-means distances scale by s^2 and assignments are invariant under translation + uniform scaling) + metamorphic oracle on the implementation",
+ "C15": ("Coq proof (under x -> a*x+b per feature: per-component and total log-likelihood shift by -sum ln|a|, responsibilities invariant, statistics equivariant, one ML EM step equivariant, linear scores invariant with offsets scaled; i-vector precision / linear term / projection invariant and one i-vector training iteration equivariant; k-means distances scale by s^2 and assignments are invariant under translation + uniform scaling; the k-means stopping rule is scale-invariant, the GMM one is not: refuted with a witness) + metamorphic oracle on the implementation",
          "Theorems over R for any sizes; the oracle trains/scores on transformed inputs (scales of random sign, 1e-3..1e3, shifts up to 1e2; rotations for k-means) for GMM ML/MAP with all switch settings, linear scoring, ISV/JFA factors/scores/client mean, i-vectors.",
-         "MAP with variance adaptation is not equivariant today: known finding D2 (shared with C05); the FA/i-vector invariances are covered by the oracle, not yet by theorems.", "DESIGN.md 4/C15"),
+         "MAP with variance adaptation is not equivariant today: known finding D2 (shared with C05); threshold-stopped GMM training depends on the units through the relative-change rule: known finding D14; the ISV/JFA factor invariances are theorems where Proofs/FAAffine.v is present, otherwise covered by the oracle.", "DESIGN.md 4/C15"),
 }
 
 NOT_YET = "check not built yet in this round (the proof technique applies; see DESIGN.md section 4)"
